@@ -152,7 +152,9 @@ def run_case(case, ctx, res):
     _one_cmp(osy, res, op, kind, v1, u1, v2, u2, rel, dt1, dt2)
 
 
-def _one_cmp(osy, res, op, kind, v1, u1, v2, u2, rel, dt1, dt2):
+def _one_cmp(osy, res, op, kind, v1, u1, v2, u2, rel, dt1, dt2, objs=None):
+    if objs is not None:
+        return _judge_cmp(osy, res, op, kind, v1, u1, v2, u2, rel, dt1, dt2, objs[0], objs[1])
     a = osy.Array(values=np.array(v1), unit=u1, name="a")
     if kind == "array":
         b = osy.Array(values=np.array(v2), unit=u2, name="b")
@@ -166,6 +168,17 @@ def _one_cmp(osy, res, op, kind, v1, u1, v2, u2, rel, dt1, dt2):
         b = int(np.asarray(v2).ravel()[0])
     else:
         b = np.asarray(v2).ravel()[0]
+    ok = _judge_cmp(osy, res, op, kind, v1, u1, v2, u2, rel, dt1, dt2, a, b)
+    # second pass on the same objects after a's numbers were changed in place
+    if ok and kind in ("array", "quantity", "ndarray") and np.dtype(dt1).kind == "f" and np.shape(v1) and rel != "incompatible":
+        res.count("repeat-after-mutation")
+        new = np.abs(np.asarray(v1)) * 7 + 3
+        a.values[...] = new
+        _judge_cmp(osy, res, op, kind, np.array(a.values), u1, v2, u2, rel, dt1, dt2, a, b, again=True)
+
+
+def _judge_cmp(osy, res, op, kind, v1, u1, v2, u2, rel, dt1, dt2, a, b, again=False):
+    """-> True if judged without violation"""
     sig = {"op": op, "kind": kind, "dt": [dt1, dt2], "shapes": [list(np.shape(v1)), list(np.shape(b) if kind in ("ndarray", "float", "int", "npscalar") else np.shape(v2))],
            "units": [u1, u2], "rel": rel}
     res.digest_src = sig if res.digest_src is None else res.digest_src
@@ -185,25 +198,25 @@ def _one_cmp(osy, res, op, kind, v1, u1, v2, u2, rel, dt1, dt2):
             res.violate("no-raise-incompatible",
                         f"{op}: {u1!r} vs {u2 or 'plain ' + kind!r} returned {str(out.value)[:100]} instead of raising",
                         sig=sig)
-        return
+        return False
     res.count("cmp-oracle")
     if not out.ok:
         res.violate("raised-unexpectedly", f"{op} ({kind}, {u1!r} vs {u2!r}) {out.describe()}", sig=sig, tb=out.tb)
-        return
+        return False
     r = out.value
     if type(r).__name__ != "Array":
         res.violate("wrong-type", f"{op} returned {type(r).__name__}", sig=sig)
-        return
+        return False
     rv = np.asarray(r.values)
     exp_shape = np.broadcast_shapes(np.shape(v1), np.shape(bvals))
     if rv.dtype != np.bool_:
         res.violate("not-boolean", f"{op} result dtype {rv.dtype}", sig=sig)
-        return
+        return False
     if scale_dims(r.unit)[1] != () or scale_dims(r.unit)[0] != 1.0:
         res.violate("not-dimensionless", f"{op} result unit {r.unit!s}", sig=sig)
     if rv.shape != exp_shape:
         res.violate("wrong-shape", f"{op} result shape {rv.shape} != broadcast {exp_shape}", sig=sig)
-        return
+        return False
     Av, Bv = np.broadcast_arrays(A.v, B.v)
     raw1, raw2 = np.broadcast_arrays(np.asarray(v1, dtype=np.longdouble), np.asarray(bvals, dtype=np.longdouble))
     margin = 1e-6 if "32" not in dt1 + dt2 else 1e-3
@@ -236,7 +249,10 @@ def _one_cmp(osy, res, op, kind, v1, u1, v2, u2, rel, dt1, dt2):
             mech = "compares-raw-numbers"
         res.violate(mech, f"{op} ({kind}) {u1!r} vs {u2!r}: {int(bad.sum())} of {int(judged.sum())} judged "
                     f"elements wrong; at {i}: a={float(raw1[i])!r} {u1}, b={float(raw2[i])!r} {u2}: "
-                    f"got {bool(rv[i])}, physical verdict {bool(truth[i])}", sig=sig)
+                    f"got {bool(rv[i])}, physical verdict {bool(truth[i])}"
+                    + (" [repeated on the same objects after a was changed in place]" if again else ""), sig=sig)
+        return False
+    return True
 
 
 def run_logical(case, ctx, res):
